@@ -14,9 +14,9 @@ use crate::witness;
 use etherparse::*;
 
 macro_rules! within {
-    ($outer:expr, $sub:expr) => {
+    ($outer:expr, $sub:expr) => {{
         assert!(inside($outer, $sub), "C01: returned sub-slice lies outside the input slice");
-    };
+    }};
 }
 pub(crate) use within;
 
@@ -1157,6 +1157,51 @@ pub mod packet {
         sink(p.vlan_ids().len());
     }
 
+    /// light variant: only the slices the cursor itself cuts (accessors are decided per layer)
+    fn touch_sliced_light(s: &[u8], p: &SlicedPacket) {
+        match &p.link {
+            Some(LinkSlice::Ethernet2(e)) => within!(s, e.slice()),
+            Some(LinkSlice::LinuxSll(l)) => within!(s, l.slice()),
+            Some(LinkSlice::EtherPayload(e)) => within!(s, e.payload),
+            Some(LinkSlice::LinuxSllPayload(e)) => within!(s, e.payload),
+            None => {}
+        }
+        let mut i = 0;
+        while i < p.link_exts.len() {
+            match &p.link_exts[i] {
+                LinkExtSlice::Vlan(v) => within!(s, v.slice()),
+                LinkExtSlice::Macsec(m) => {
+                    within!(s, m.header.slice());
+                    match &m.payload {
+                        MacsecPayloadSlice::Unmodified(e) => within!(s, e.payload),
+                        MacsecPayloadSlice::Modified(x) => within!(s, x),
+                    }
+                }
+            }
+            i += 1;
+        }
+        match &p.net {
+            Some(NetSlice::Ipv4(v4)) => {
+                within!(s, v4.header().slice());
+                within!(s, v4.payload().payload);
+            }
+            Some(NetSlice::Ipv6(v6)) => {
+                within!(s, v6.header().slice());
+                within!(s, v6.extensions().slice());
+                within!(s, v6.payload().payload);
+            }
+            Some(NetSlice::Arp(a)) => within!(s, a.slice()),
+            None => {}
+        }
+        match &p.transport {
+            Some(TransportSlice::Udp(u)) => within!(s, u.slice()),
+            Some(TransportSlice::Tcp(t)) => within!(s, t.slice()),
+            Some(TransportSlice::Icmpv4(x)) => within!(s, x.slice()),
+            Some(TransportSlice::Icmpv6(x)) => within!(s, x.slice()),
+            None => {}
+        }
+    }
+
     pub fn sliced<const N: usize, const START: u8>() {
         let t = Tight::<N>::new(any_le(N));
         let s = t.slice();
@@ -1169,12 +1214,57 @@ pub mod packet {
         match r {
             Ok(p) => {
                 witness!(p.transport.is_some(), "ok_transport");
-                touch_sliced(s, &p);
+                touch_sliced_light(s, &p);
+                core::mem::forget(p);
             }
             Err(e) => {
                 witness!(true, "err");
                 core::mem::forget(e);
             }
+        }
+    }
+
+    fn touch_lax_sliced_light(s: &[u8], p: &LaxSlicedPacket) {
+        match &p.link {
+            Some(LinkSlice::Ethernet2(e)) => within!(s, e.slice()),
+            Some(LinkSlice::LinuxSll(l)) => within!(s, l.slice()),
+            Some(LinkSlice::EtherPayload(e)) => within!(s, e.payload),
+            Some(LinkSlice::LinuxSllPayload(e)) => within!(s, e.payload),
+            None => {}
+        }
+        let mut i = 0;
+        while i < p.link_exts.len() {
+            match &p.link_exts[i] {
+                LaxLinkExtSlice::Vlan(v) => within!(s, v.slice()),
+                LaxLinkExtSlice::Macsec(m) => {
+                    within!(s, m.header.slice());
+                    match &m.payload {
+                        LaxMacsecPayloadSlice::Unmodified(e) => within!(s, e.payload),
+                        LaxMacsecPayloadSlice::Modified { payload, .. } => within!(s, payload),
+                    }
+                }
+            }
+            i += 1;
+        }
+        match &p.net {
+            Some(LaxNetSlice::Ipv4(v4)) => {
+                within!(s, v4.header().slice());
+                within!(s, v4.payload().payload);
+            }
+            Some(LaxNetSlice::Ipv6(v6)) => {
+                within!(s, v6.header().slice());
+                within!(s, v6.extensions().slice());
+                within!(s, v6.payload().payload);
+            }
+            Some(LaxNetSlice::Arp(a)) => within!(s, a.slice()),
+            None => {}
+        }
+        match &p.transport {
+            Some(TransportSlice::Udp(u)) => within!(s, u.slice()),
+            Some(TransportSlice::Tcp(t)) => within!(s, t.slice()),
+            Some(TransportSlice::Icmpv4(x)) => within!(s, x.slice()),
+            Some(TransportSlice::Icmpv6(x)) => within!(s, x.slice()),
+            None => {}
         }
     }
 
@@ -1188,7 +1278,7 @@ pub mod packet {
         };
         if let Some(p) = r {
             witness!(p.stop_err.is_some() && p.net.is_some(), "stopped_behind_net");
-            touch_lax_sliced(s, &p);
+            touch_lax_sliced_light(s, &p);
             core::mem::forget(p);
         }
     }
@@ -1232,19 +1322,20 @@ pub mod packet {
     }
 
     crate::harnesses! {
-        c01_pk_sliced_ethernet = sliced::<56, 0>; unwind 5,
-        c01_pk_sliced_sll = sliced::<56, 1>; unwind 5,
-        c01_pk_sliced_ether_type = sliced::<48, 2>; unwind 5,
+        c01_pk_sliced_ethernet = sliced::<48, 0>; unwind 5,
+        c01_pk_sliced_sll = sliced::<48, 1>; unwind 5,
+        c01_pk_sliced_ether_type = sliced::<44, 2>; unwind 5,
         c01_pk_sliced_ip = sliced::<56, 3>; unwind 5,
-        c01_pk_lax_sliced_ethernet = lax_sliced::<56, 0>; unwind 5,
-        c01_pk_lax_sliced_ether_type = lax_sliced::<48, 2>; unwind 5,
-        c01_pk_lax_sliced_ip = lax_sliced::<56, 3>; unwind 5,
-        c01_pk_headers_ethernet = headers::<56, 0>; unwind 5,
-        c01_pk_headers_ether_type = headers::<48, 2>; unwind 5,
-        c01_pk_headers_ip = headers::<56, 3>; unwind 5,
-        c01_pk_lax_headers_ethernet = lax_headers::<56, 0>; unwind 5,
-        c01_pk_lax_headers_sll = lax_headers::<56, 1>; unwind 5,
-        c01_pk_lax_headers_ether_type = lax_headers::<48, 2>; unwind 5,
-        c01_pk_lax_headers_ip = lax_headers::<56, 3>; unwind 5,
+        c01_pk_sliced_ip_44 = sliced::<44, 3>; unwind 5,
+        c01_pk_lax_sliced_ethernet = lax_sliced::<48, 0>; unwind 5,
+        c01_pk_lax_sliced_ether_type = lax_sliced::<44, 2>; unwind 5,
+        c01_pk_lax_sliced_ip = lax_sliced::<48, 3>; unwind 5,
+        c01_pk_headers_ethernet = headers::<48, 0>; unwind 5,
+        c01_pk_headers_ether_type = headers::<44, 2>; unwind 5,
+        c01_pk_headers_ip = headers::<48, 3>; unwind 5,
+        c01_pk_lax_headers_ethernet = lax_headers::<48, 0>; unwind 5,
+        c01_pk_lax_headers_sll = lax_headers::<48, 1>; unwind 5,
+        c01_pk_lax_headers_ether_type = lax_headers::<44, 2>; unwind 5,
+        c01_pk_lax_headers_ip = lax_headers::<48, 3>; unwind 5,
     }
 }
